@@ -40,11 +40,11 @@ def _no_rawtext(nodes):
     return out
 
 
-def case_strategy(eols, blank):
+def case_strategy(eols, blank, newlines=False):
     def f():
         return st.fixed_dictionaries(
             {
-                "roots": gen.layout_forest(newlines=False, meta=1, spaces=False, blank=blank).map(_no_rawtext).map(gen.number),
+                "roots": gen.layout_forest(newlines=newlines, meta=1, spaces=newlines, blank=blank).map(_no_rawtext).map(gen.number),
                 "indent": st.integers(0, 6),
                 "eol": st.sampled_from(eols),
             }
@@ -269,7 +269,7 @@ RULE = (
 )
 
 CLAUSES = [
-    Clause("contain", body_contain, strategy=case_strategy(EOLS_ANY, ("", " ", "\t", "\xa0", "  ")), quick=800, thorough=12000, shards_quick=3, required=("block-inside-inline", "blank-leaf"), rule="see RULE"),
+    Clause("contain", body_contain, strategy=case_strategy(EOLS_ANY, ("", " ", "\t", "\xa0", "  "), newlines=True), quick=800, thorough=12000, shards_quick=3, required=("block-inside-inline", "blank-leaf"), rule="see RULE"),
     Clause("tokens", body_tokens, strategy=case_strategy(EOLS_WS, ("",)), quick=800, thorough=12000, shards_quick=3, required=("block-inside-inline", "eol-empty", "blank-leaf"), rule="see RULE"),
     Clause("triples", body_triples, source="enum", enum=enum_triples, shards_quick=4, shards_thorough=8, rule="every case"),
 ]
